@@ -28,6 +28,7 @@ ASSUMPTIONS = ["std::mem::replace(self, other) stores other into self", "redb ta
 EXPLANATION += ' (R10, round 8) also the RPC handlers doc_set (one local insert with the hash of exactly the stored blob and the length of exactly the value, read back for the same triple) and doc_create. (R12) = C14.R3 (sync stays enabled across further opens). (R13) Store::load_replica_info / new_replica evaluated: a document is opened with from_raw of exactly the row stored under its own id; a created document stores the write capability of its secret.'
 EXPLANATION += ' Round 9: R11 also carries the destructor rows of C06.R4 (a capability imported just before the store is dropped survives the reopen).'
 EXPLANATION += ' (R14, round 11) who-may-construct: ReplicaInfo is built only by Store::load_replica_info - no memo of an earlier open anywhere.'
+EXPLANATION += ' (R15, round 12) = C03.R13: the id a write secret is stored and looked up under is the bytes of its own public key.'
 
 
 def r1(ctx):
@@ -594,6 +595,12 @@ def r14(ctx):
     ctx.check(set(builders) <= {"sync::ReplicaInfo::new"}, "C07.R14", "sync::ReplicaInfo", "replica-state-aggregate-only-in-new", "ReplicaInfo values are built in %s" % builders, None)
     ctx.floor("C07.R14", 2)
 
+def r15(ctx):
+    """the key algebra of src/keys.rs evaluated: the document a secret grants write access to is the id made of the bytes of that secret's own public key"""
+    from . import keyalg
+    keyalg.check(ctx, "C07.R15")
+    ctx.floor("C07.R15", 40)
+
 def run(ctx):
     ctx.run_rule("C07.R1", r1)
     ctx.run_rule("C07.R2", r2)
@@ -609,3 +616,4 @@ def run(ctx):
     ctx.run_rule("C07.R12", r12)
     ctx.run_rule("C07.R13", r13)
     ctx.run_rule("C07.R14", r14)
+    ctx.run_rule("C07.R15", r15)
